@@ -179,6 +179,10 @@ fn exec_c<C: GenericConfig<D, F = F>>(case: &Case, rep: &mut Report) {
     let mut first: Option<(Built<C>, NodeView)> = None;
     for (k, s) in case.scheds.iter().enumerate() {
         s.arm();
+        // keys must not depend on the entropy a node happens to draw: every build gets its own stream
+        let mut e = case.entropy.clone();
+        e.seed = e.seed.wrapping_add(0x9E37_79B9 * k as u64);
+        e.arm();
         let b = match build::<C>(&case.st) {
             BuildOutcome::Ok(b) => b,
             BuildOutcome::Unsat(e) => {
